@@ -10,7 +10,7 @@ monitor : Wf.wf_tree (the executable reading of the statement) evaluated by Coq 
 """
 import json, random, itertools, re
 from .. import coqterm as ct
-from .. import impl, model, corr, gen
+from .. import impl, model, corr, gen, e2e
 from ..common import *
 
 LEAF = {'P': ['a exists', 'a == 1'], 'F': ['a !exists', 'a == 2'], 'S': ['l[ x == 99 ].y exists', 'l[ x == 99 ].y == 1']}
@@ -359,10 +359,77 @@ def repeated_rule_names(ctx):
     return n
 
 
+def multi_document_runs(ctx):
+    """one `validate` run over several documents (the console paths build their records in a loop over the data files): rules that name
+    other rules - in a clause, under `not`, in an or-line, in a `when` - whose status differs from document to document, every order of
+    the documents. In every printed record (a) each rule has the status the evaluator gives for that (rules, document) pair alone - the
+    statuses the rest of this check validates against the model and `wf_tree` - and (b) wherever the record of a referenced rule is nested
+    under a reference it carries the same status as that rule's own record."""
+    import itertools
+    rules = ('rule is_prod when env == "prod" {\n  env exists\n}\nrule prod_encrypted when is_prod {\n  enc == true\n}\n'
+             'rule uses {\n  is_prod or name exists\n}\nrule neg {\n  not is_prod\n}\nrule both when is_prod {\n  prod_encrypted\n}\nrule big {\n  size >= 10\n}\nrule chain when big {\n  not prod_encrypted or is_prod\n}\n')
+    docs = {'dev': {'env': 'dev', 'enc': False, 'name': 'a', 'size': 50}, 'prod': {'env': 'prod', 'enc': False, 'name': 'b', 'size': 5},
+            'prod_ok': {'env': 'prod', 'enc': True, 'size': 20}}
+    orders = [list(p_) for k_ in (2, 3) for p_ in itertools.permutations(sorted(docs), k_)]
+    ref = {}
+    res = impl.run_ops([{'op': 'eval', 'rules': rules, 'data': json.dumps(docs[dn]), 'loader': 'json'} for dn in sorted(docs)], ctx.wd, 'c02multi')
+    for dn, r in zip(sorted(docs), res):
+        ref[dn] = sorted(e2e.rule_statuses(r))
+    impl.build_cli()
+    jobs = []
+    for oi, do in enumerate(orders):
+        d = os.path.join(ctx.wd, 'md%d' % oi)
+        files = {'r.guard': rules}
+        for j, dn in enumerate(do):
+            files['d%d_%s.json' % (j, dn)] = json.dumps(docs[dn])
+        e2e.write_files(d, files)
+        jobs.append({'args': ['validate', '-r', 'r.guard'] + [a for j, dn in enumerate(do) for a in ('-d', 'd%d_%s.json' % (j, dn))] + ['-p'], 'cwd': d})
+    n = 0
+    for do, (code, so, se) in zip(orders, e2e.run_many(jobs)):
+        txt, recs, i = so.decode('utf-8', 'replace'), [], 0
+        dec = json.JSONDecoder()
+        while i < len(txt):
+            if txt[i] != '{':
+                i += 1
+                continue
+            try:
+                o, j = dec.raw_decode(txt, i)
+            except ValueError:
+                i += 1
+                continue
+            if isinstance(o, dict) and isinstance(o.get('container'), dict) and 'FileCheck' in o['container']:
+                recs.append(o)
+            i = j
+        info = {'class': 'multi-document', 'rules': rules, 'docs': [docs[x] for x in do], 'doc_order': do}
+        if len(recs) != len(do):
+            ctx.failing('validate --print-json over %d documents prints %d file records' % (len(do), len(recs)), info, found=True)
+            continue
+        for dn, rec in zip(do, recs):
+            n += 1
+            top = {c['container']['RuleCheck']['name']: c['container']['RuleCheck']['status'] for c in rec.get('children', []) if isinstance(c.get('container'), dict) and 'RuleCheck' in c['container']}
+            if sorted(top.items()) != ref[dn]:
+                ctx.failing('document %s evaluated as number %d of %s: rule statuses %s, evaluated alone %s' % (dn, do.index(dn) + 1, do, sorted(top.items()), ref[dn]), dict(info, document=dn), found=True)
+            def nested(x, depth):
+                out = []
+                if isinstance(x, dict):
+                    cont = x.get('container')
+                    if depth > 1 and isinstance(cont, dict) and 'RuleCheck' in cont:
+                        out.append((cont['RuleCheck']['name'], cont['RuleCheck']['status']))
+                    for ch in x.get('children', []) or []:
+                        out += nested(ch, depth + 1)
+                return out
+            for name, st in nested(rec, 0):
+                if name in top and top[name] != st:
+                    ctx.failing('document %s: the record of rule %s nested under a reference says %s, the rule\'s own record %s' % (dn, name, st, top[name]), dict(info, document=dn), found=True)
+    ctx.coverage['multi_document_records'] = n
+    ctx.coverage['evaluations'] += len(jobs)
+    return n
+
+
 def run(ctx):
     ctx.build()
     pr = ctx.proofs('C02')
-    n0 = aggregation(ctx, 4 if ctx.tier == 'thorough' else 3) + filter_positions(ctx) + repeated_rule_names(ctx)
+    n0 = aggregation(ctx, 4 if ctx.tier == 'thorough' else 3) + filter_positions(ctx) + repeated_rule_names(ctx) + multi_document_runs(ctx)
     if ctx.tier == 'thorough':
         n1 = exhaustive_cnf(ctx, 3, 3) if os.environ.get('VERIF_C02_FULL') else exhaustive_cnf(ctx, 3, 2)
         n2 = generated(ctx, 4000)
